@@ -4,6 +4,7 @@ import Amgcl.Proofs.KernelsSum
 import Amgcl.Proofs.KernelsRmerge
 import Amgcl.Proofs.KernelsMisc
 import Amgcl.Proofs.KernelsGershgorin
+import Amgcl.Proofs.KernelsProductEq
 /-!
 # C08 — sparse matrix kernels equal their dense definitions (part 2)
 
@@ -188,6 +189,37 @@ theorem product_indep_threads (nt nt' : Nat) (A B : CRS K) (hA : A.WF) (hB : B.W
     · rfl
     · exact saad_eq_rmerge A B hA hB s i j
   rw [key nt sort, key nt' sort']
+
+/-- with `sort = true` the rows of the marker-based product are strictly increasing (complements `C08.saad_wf`,
+`C08.saad_nodup`) -/
+theorem saad_sorted (A B : CRS K) (hB : B.WF) : (spgemmSaad A B true).sortedb = true :=
+  K2.saad_sorted A B hB
+
+/-- **the two algorithms return the same STORED matrix** (`ptr`, `col`, `val` identical, explicit zeros included)
+when the marker-based one sorts its rows and the right operand is row-sorted; `A` may have any row order and
+duplicate columns. -/
+theorem saad_sorted_eq_rmerge (A B : CRS K) (hA : A.WF) (hB : B.WF) (hBs : B.sortedb = true) :
+    spgemmSaad A B true = spgemmRmerge A B :=
+  K2.saad_sorted_eq_rmerge A B hA hB hBs
+
+/-- hence `backend::product(A, B, sort = true)` is the same stored matrix for every thread count.  (With
+`sort = false` only the denotation is thread-count independent, see `product_indep_threads`: the marker-based
+algorithm leaves rows in first-touch order, the row-merge algorithm always produces sorted rows — example below.) -/
+theorem product_sorted_indep_threads (nt nt' : Nat) (A B : CRS K) (hA : A.WF) (hB : B.WF) (hBs : B.sortedb = true) :
+    product nt A B true = product nt' A B true := by
+  have key : ∀ n, product n A B true = spgemmRmerge A B := by
+    intro n
+    unfold product
+    split
+    · rfl
+    · exact saad_sorted_eq_rmerge A B hA hB hBs
+  rw [key nt, key nt']
+
+-- `sort = false`: same denotation, different stored order for 16 and 17 threads (sorted operands!)
+example : (product 16 (⟨2, #[[(0, (1 : Int)), (1, 1)]]⟩ : CRS Int) ⟨2, #[[(1, 1)], [(0, 1)]]⟩ false).rows
+      = #[[(1, 1), (0, 1)]] ∧
+    (product 17 (⟨2, #[[(0, (1 : Int)), (1, 1)]]⟩ : CRS Int) ⟨2, #[[(1, 1)], [(0, 1)]]⟩ false).rows
+      = #[[(0, 1), (1, 1)]] := by decide +kernel
 
 -- non-vacuity: rectangular operands, unsorted `A` row with a duplicate column, sorted `B`, an empty row
 example : (⟨3, #[[(2, (1 : Int)), (0, 2), (2, 3)], []]⟩ : CRS Int).WF ∧
